@@ -13,7 +13,7 @@ from .sym import tag, payload, kids
 from .inter import is_integer_fn
 
 UOPS = {"u.checked_add": "add", "u.checked_sub": "sub", "u.checked_mul": "mul", "u.checked_div": "div",
-        "u.add": "add", "u.sub": "sub", "u.mul": "mul", "u.div": "div", "add": "add", "sub": "sub", "mul": "mul", "div": "div"}
+        "u.add": "add", "u.sub": "sub", "u.mul": "mul", "u.div": "div", "u.checked_rem": "rem", "u.rem": "rem", "rem": "rem", "add": "add", "sub": "sub", "mul": "mul", "div": "div"}
 IBIN = {"add": "iadd", "sub": "isub", "mul": "imul", "div": "idiv", "checked_add": "iadd", "checked_sub": "isub",
         "checked_mul": "imul", "checked_div": "idiv"}
 COMM = {"add", "mul", "iadd", "imul"}
@@ -50,7 +50,12 @@ def N(ix, v, depth=40):
             if last in ("zero", "default"):
                 return ("pos", ("int", 0))
             if last in IBIN and len(ks) == 2:
-                return (IBIN[last], N(ix, ks[0], depth - 1), N(ix, ks[1], depth - 1))
+                a, b = N(ix, ks[0], depth - 1), N(ix, ks[1], depth - 1)
+                opn = IBIN[last]
+                # x + (-y) is x - y ; x - (-y) is x + y (how `-=` and Sub are written in terms of Add)
+                if opn in ("iadd", "isub") and b[0] == "inv":
+                    return ("isub" if opn == "iadd" else "iadd", a, b[1])
+                return (opn, a, b)
             if last == "abs":
                 return ("abs", N(ix, ks[0], depth - 1))
             if last == "invert_sign":
